@@ -357,7 +357,7 @@ def run(prop, tier, seed):
         run_process_level(prop, tier, seed, R)
     elif prop == "C09":
         import searchmc
-        searchmc.run(prop, tier, R)
+        searchmc.run(prop, tier, R, seed=seed)
         run_hook_level(prop, tier, seed, R)
     return R
 
